@@ -13,13 +13,18 @@ ABS_KEYS = ["mods", "kids", "par", "addr", "isz", "off", "bsz", "symx"]
 ADDR_METHODS = ["byte_blocks_on", "byte_blocks_at", "code_blocks_on", "code_blocks_at", "data_blocks_on",
                 "data_blocks_at"]
 OFF_METHODS = [m + "_offset" for m in ADDR_METHODS]
+# A queried range that ends at this abstract coordinate stands (with BASE = 0) for one that ends at 2^64:
+# "everything from lo on".  Every abstract coordinate is far below it, so membership and overlap are the same
+# for range(lo, HUGE, st) -- what TLC judges -- and range(lo, 2**64, st) -- what the real objects are asked.
+HUGE = 64
 
 
 class Recorder:
     """Issues seeded batches of lookups on the real objects and writes ndjson records."""
 
-    def __init__(self, consts, seed=0, per_step=10, max_coord=None, path=None, families=None):
+    def __init__(self, consts, seed=0, per_step=10, max_coord=None, path=None, families=None, always_blocks=False):
         self.c = consts
+        self.always_blocks = always_blocks
         self.rng = random.Random(seed)
         self.per_step = per_step
         self.path = path or os.path.join(workdir("gtirbverif-judge-"), "lookups.ndjson")
@@ -37,9 +42,12 @@ class Recorder:
                 for z in consts["BSizes"] | {0}:
                     hi = max(hi, a + o + z)
         self.hi = max_coord if max_coord is not None else hi + 2
+        if self.hi + 8 >= HUGE:
+            raise MachineryFailure("abstract coordinates reach the whole-address-space sentinel")
         self.keys = [k for k in ABS_KEYS]
         self.seen_states = set()
         self.hists = []    # operation + query history behind every record (for replays)
+        self.raised = []   # lookups that raised instead of answering
 
     def _anchors(self, env, x, offset_based):
         """coordinates worth querying around (choice of queries only; never part of a verdict)"""
@@ -64,6 +72,9 @@ class Recorder:
     def _query(self, env=None, x=None, offset_based=False):
         r = self.rng
         anchors = self._anchors(env, x, offset_based) if env is not None else []
+        if env is not None and env.base == 0 and r.random() < 0.06:
+            # whole-address-space queries: range(lo, 2**64, step) has 2^63 members and more
+            return [r.choice([-1, 0, 0, 1, r.randint(0, self.hi)]), HUGE, r.choice([1, 1, 2, 3])], False
         if anchors and r.random() < 0.75:
             lo = r.choice(anchors) + r.choice([-1, 0, 0, 1])
         else:
@@ -123,12 +134,27 @@ class Recorder:
         offset_based = f.endswith("_offset")
         if point:
             arg = q[0] if offset_based else env.base + q[0]
+        elif q[1] == HUGE and env.base == 0:
+            arg = range(q[0], 2 ** 64, q[2])
         else:
             arg = range(q[0], q[1], q[2]) if offset_based else env.to_range(q)
         res = list(getattr(o, f)(arg))
         if f.startswith("symbolic_expressions_at"):
             return [[env.nid(t[0]), t[1], env.nid(t[2])] for t in res]
         return [env.nid(n) for n in res]
+
+    def ask_safe(self, env, f, x, q, point):
+        """ask(); a lookup that raises on a legal query is kept aside as a finding of its own (None returned)"""
+        try:
+            return self.ask(env, f, x, q, point)
+        except (Unprojectable, MachineryFailure):
+            raise
+        except Exception as e:   # noqa: the class is the observation
+            if len(self.raised) < 200:
+                self.raised.append({"f": f, "x": x, "q": list(q), "exc": type(e).__name__, "msg": str(e)[:200],
+                                    "st": env.project(self.keys), "base": str(env.base),
+                                    "history": list(getattr(env, "history", []))})
+            return None
 
     def record(self, env, n_queries=None, state_key=None, must_include=()):
         cands = self._candidates(env)
@@ -140,14 +166,17 @@ class Recorder:
             n = max(n, 4 * self.per_step)
         qs = []
         picks = list(must_include) + [self.rng.choice(cands) for _ in range(n)]
+        if self.always_blocks:      # the per-block views, for every block, at every record
+            picks += [c for c in cands if c[0] in ("block_address", "contains_offset", "contains_address")]
         for f, x in picks:
             q, point = self._query(env, x, f.endswith('_offset') or f == 'contains_offset')
             if f in ("section_address", "section_size", "block_address"):
                 q, point = [0, 1, 1], True
             elif f in ("contains_offset", "contains_address"):
                 q, point = [q[0], q[0] + 1, 1], True
-            ans = self.ask(env, f, x, q, point)
-            qs.append({"f": f, "x": x, "q": q, "ans": ans})
+            ans = self.ask_safe(env, f, x, q, point)
+            if ans is not None:
+                qs.append({"f": f, "x": x, "q": q, "ans": ans})
         self.write(env, qs)
 
     def write(self, env, qs):
@@ -236,7 +265,11 @@ class LazyEnv:
     def step(self, op):
         if op["name"] != "lookup":
             r = self.main.step(op)
-            self.twin.step(op)
+            if op["name"] == "set.pop" and isinstance(r, str) and r != "none":
+                # which member pop() takes is arbitrary: the twin removes the one the main environment lost
+                self.twin.step(dict(op, name="set.remove", c=r))
+            else:
+                self.twin.step(op)
             return r
         n0 = len(self.trace.events) if self.trace else 0
         qs = []
@@ -244,7 +277,9 @@ class LazyEnv:
             q = list(op["q"])
             if f in ("section_address", "section_size"):
                 q = [0, 1, 1]
-            qs.append({"f": f, "x": op["x"], "q": q, "ans": self.rec.ask(self.main, f, op["x"], q, False)})
+            ans = self.rec.ask_safe(self.main, f, op["x"], q, False)
+            if ans is not None:
+                qs.append({"f": f, "x": op["x"], "q": q, "ans": ans})
         self.rec.write(self.main, qs)
         if self.trace:
             got = sorted(e["branch"] for e in self.trace.events[n0:] if e.get("kind") == "lazy.get")
@@ -264,7 +299,8 @@ class LazyEnv:
         for f, x in cands:
             for q in sorted(self.c["Queries"]):
                 qq = [0, 1, 1] if f in ("section_address", "section_size") else list(q)
-                out.append((f, x, qq, sorted(map(repr, self.rec.ask(env, f, x, qq, False)))))
+                ans = self.rec.ask_safe(env, f, x, qq, False)
+                out.append((f, x, qq, sorted(map(repr, ans)) if ans is not None else ["<raised>"]))
         return out
 
     def finish(self, hist):
@@ -286,6 +322,6 @@ class LazyEnv:
                             "history": hist, "signature": "schedule:%s" % x[0]})
                 break
         # the twin's final answers are judged by TLC as well
-        qs = [{"f": f, "x": x, "q": q, "ans": self.rec.ask(self.twin, f, x, q, False)} for f, x, q, _ in a[:40]]
-        self.rec.write(self.twin, qs)
+        qs = [{"f": f, "x": x, "q": q, "ans": self.rec.ask_safe(self.twin, f, x, q, False)} for f, x, q, _ in a[:40]]
+        self.rec.write(self.twin, [e for e in qs if e["ans"] is not None])
         return out
